@@ -178,6 +178,25 @@ fn main() {
 			};
 			h.go(&sys, &Limits::depth(if thorough { 8 } else { 6 }).wall_secs(60), true);
 		}
+		// both zeros and mixed signs (order statistics and guards must compare numerically, not by bits)
+		{
+			let n = 3.max(min);
+			let sys = MSys {
+				name: format!("{name}/depth/signed-zeros/n={n}"),
+				spec: spec(name),
+				params: vec![Params::N(n as PeriodType)],
+				v0s: vals(&[1.0, 0.0]),
+				alphabet: vals(&[0.0, -0.0, 1.0, -5.0]),
+				mk_ref: mk_ref(name),
+				shape: Shape::Free,
+				span: n_of,
+				keyed: false,
+				positions: None,
+				check_peek: true,
+				extra: None,
+			};
+			h.go(&sys, &Limits::depth(if thorough { 8 } else { 6 }).wall_secs(60), true);
+		}
 		// (b) every length, flat base with deviations
 		let mut ns: Vec<usize> = (min..=maxn).collect();
 		if std::env::var("VERIF_WIDE").as_deref() == Ok("1") {
